@@ -227,4 +227,56 @@ theorem padded_symLe (e : Nat) (d x : Bytes) (hx : x ∈ chunksPadded e d) : x.l
 theorem reedSolomon_symLe (rep) : SymLe (reedSolomon rep) := fun e d x _ hx => padded_symLe e d x hx
 theorem raptorQ_symLe (rep) : SymLe (raptorQ rep) := fun e d x _ hx => padded_symLe e d x hx
 
+theorem cutSizes_mem : ∀ (sizes : List Nat) (d x : Bytes), x ∈ cutSizes sizes d → ∃ sz, sz ∈ sizes ∧ x.length ≤ sz := by
+  intro sizes
+  induction sizes with
+  | nil => intro d x h; simp [cutSizes] at h
+  | cons a t ih =>
+    intro d x h
+    simp only [cutSizes, List.mem_cons] at h
+    rcases h with h | h
+    · subst h; exact ⟨a, by simp, by simp; omega⟩
+    · obtain ⟨sz, h1, h2⟩ := ih _ x h
+      exact ⟨sz, by simp [h1], h2⟩
+
+theorem divCeil_divCeil_le (m e : Nat) (he : 0 < e) : divCeil m (divCeil m e) ≤ e := by
+  by_cases hk : divCeil m e = 0
+  · have hm : m = 0 := by
+      by_cases h : 0 < m
+      · have := divCeil_pos m e h he; omega
+      · omega
+    subst hm; simp [divCeil]
+  · have hkpos : 0 < divCeil m e := Nat.pos_of_ne_zero hk
+    have hge := divCeil_mul_ge m e he
+    generalize divCeil m e = k at *
+    have hdm := Nat.div_add_mod m k
+    have hml := Nat.mod_lt m hkpos
+    have hdc : divCeil m k = if m % k = 0 then m / k else m / k + 1 := rfl
+    rw [hdc]
+    generalize m / k = q at *
+    generalize m % k = r at *
+    have hc : k * e = e * k := Nat.mul_comm _ _
+    by_cases hr : r = 0
+    · simp only [hr, if_true]
+      exact Nat.le_of_mul_le_mul_left (by omega : k * q ≤ k * e) hkpos
+    · simp only [hr, if_false]
+      have : q < e := Nat.lt_of_mul_lt_mul_left (a := k) (by omega)
+      omega
+
+/-- Raptor as it is today: the semi-equal pieces have at most `e` bytes too -/
+theorem raptorLegacy_symLe (rep) : SymLe (raptorLegacy rep) := by
+  intro e d x he hx
+  simp only [raptorLegacy] at hx
+  obtain ⟨sz, h1, h2⟩ := cutSizes_mem _ _ _ hx
+  have hle := divCeil_divCeil_le d.length e he
+  simp only [raptorPieces, List.mem_append, List.mem_replicate] at h1
+  rcases h1 with ⟨_, h⟩ | ⟨_, h⟩
+  · omega
+  · have : ∀ a b : Nat, a / b ≤ divCeil a b := by
+      intro a b; unfold divCeil; split
+      · exact Nat.le_refl _
+      · exact Nat.le_succ _
+    have := this d.length (divCeil d.length e)
+    omega
+
 end Flute.BencPsi
